@@ -190,6 +190,8 @@ public:
     std::string getHwVersion() const;
     float getVoltage() const;
 
+    static bool isValidPayload(const uint8_t* data, const size_t size);
+
 protected:
     const Header* getHeader() const;
     Header* getHeader();
